@@ -842,7 +842,14 @@ class BaseParser:
     @property
     def lines(self):
         if self._lines is None and self._source is not None:
-            self._lines = self._source.splitlines(keepends=True)
+            # Cut at "\n" only: that is where the lexer starts a new line
+            # number.  str.splitlines() also cuts at \x0b, \x0c, \x1c-\x1e,
+            # \x85, \u2028 and \u2029, which shifts every (line, column) pair
+            # handed to _source_slice().
+            parts = self._source.split("\n")
+            self._lines = [part + "\n" for part in parts[:-1]]
+            if parts[-1]:
+                self._lines.append(parts[-1])
         return self._lines
 
     def _source_slice(self, start, stop):
